@@ -52,6 +52,27 @@ def sealed_lemma(fname, mkargs, expect):
     return body
 
 
+def partial_sealed_lemma(fname, nvis):
+    """an accessor that needs more cells than are visible (nvis of them) must fail and must not reach below the mark"""
+    def body(L):
+        pre = Pre(L, stack=[L.cell("v%d" % i) for i in range(nvis)])
+        pre.pc.append(pre.ds_len.t == pre.n0)            # exactly nvis visible cells, anything below is hidden
+        outs = L.run(fname, [pre.xs], pre.pc, pre.roots())
+        L.witness(outs, lambda o: o.kind == "return", fname + " returns")
+        cex = lambda m: {"lines": ["eval 7", "eval #( 2 %s #)" % fname.replace("_data", ""), "stack"], "expect": [("no_panic",), ("last_result_in", ["err"])]} if nvis == 1 and fname in ("over_data", "swap_data") else None
+        for o in outs:
+            if o.kind != "return":
+                L.fail(o, "%s with %d visible cell(s) must not panic: %s" % (fname, nvis, (o.msg or "")[:80]))
+                continue
+            S1 = final_state(L, o)
+            L.require(o, z3.BoolVal(o.value.variant == "Err"), "%s: only %d cell(s) visible => error (cells below the context's base are never used)" % (fname, nvis), cex=cex)
+            for f in ALL_STACKS:
+                L.require(o, veq(L.ex, L.field(S1, "State", f), L.field(pre.S, "State", f)), "%s with %d visible cell(s): %s untouched" % (fname, nvis, f), cex=cex)
+    return body
+
+
+PARTIAL = [("swap_data", 1), ("over_data", 1), ("rot_data", 1), ("rot_data", 2)]
+
 SEALED = [
     ("pop_data", lambda L, p: [p.xs], "err"), ("top_data", lambda L, p: [p.xs], "err"), ("drop_data", lambda L, p: [p.xs], "err"),
     ("dup_data", lambda L, p: [p.xs], "err"), ("swap_data", lambda L, p: [p.xs], "err"), ("rot_data", lambda L, p: [p.xs], "err"),
@@ -230,6 +251,9 @@ def run(L, tier, only=None):
     for fname, mk, exp in SEALED:
         if not only or fname in only or "sealed" in only:
             L.lemma("C11 sealed " + fname, sealed_lemma(fname, mk, exp))
+    for fname, nvis in PARTIAL:
+        if not only or fname in only or "sealed" in only:
+            L.lemma("C11 sealed %s with %d visible" % (fname, nvis), partial_sealed_lemma(fname, nvis))
     if not only or "vars" in only:
         L.lemma("C11 sealed variables in meta mode", meta_vars_lemma)
     cases = [("Eval", False, 1, ["F"]), ("Eval", False, 2, ["F", "F"]), ("Compile", False, 1, ["C", "F", "V"]), ("MetaEval", False, 1, ["F"]),
